@@ -193,7 +193,7 @@ def real_source(b, c):
     return cur
 
 
-def check_rotation(ctx, facts):
+def check_rotation(ctx, facts, rid="C04.1"):
     n_seal = 0
     for fn in ("writer::Writer::write", "writer::Writer::batch_write"):
         b = facts.body(fn)
@@ -201,7 +201,7 @@ def check_rotation(ctx, facts):
         seals = b.calls(re.compile(r"Reader::append_block_to_chain$"))
         installs = _install_sites(b)
         if not seals or not installs:
-            ctx.anchor_missing("C04.1", "seal / install sites in " + fn)
+            ctx.anchor_missing(rid, "seal / install sites in " + fn)
             continue
         inst_blocks = [s.bb for s in installs]
         for s in seals:
@@ -216,14 +216,14 @@ def check_rotation(ctx, facts):
                         if error_exits(b, c):
                             culprit = real_source(b, c)
                             break
-                ctx.violate("C04.1", fn, "exit-between-seal-and-install", b.relfile, (culprit or s).line,
+                ctx.violate(rid, fn, "exit-between-seal-and-install", b.relfile, (culprit or s).line,
                             "after the current block was appended to the reader chain (sealed) a path returns before the successor block is installed%s: the sealed block stays "
                             "current, later appends land in a block the reader believes closed and the next rotation chains it a second time"
                             % (" (error exit of %s)" % callee_name(culprit.node).split("::")[-1] if culprit else ""))
             else:
-                ctx.ok("C04.1", fn, "no exit between sealing the block and installing its successor", b.relfile, s.line)
+                ctx.ok(rid, fn, "no exit between sealing the block and installing its successor", b.relfile, s.line)
         # advisory: the seal must be preceded by the unlock of that block (bookkeeping pairing)
-    ctx.floor("C04.1", "seal sites", n_seal, 2)
+    ctx.floor(rid, "seal sites", n_seal, 2)
 
 
 EFFECT_CALLS = re.compile(r"Mutex::lock$|BlockAllocator::alloc_block$|Reader::append_block_to_chain$|FileStateTracker::set_block_unlocked$|block::Block::write$|"
@@ -646,7 +646,7 @@ def _zero_loops(facts, b):
     return out
 
 
-def check_rollback_zeroing(ctx, facts):
+def check_rollback_zeroing(ctx, facts, rid="C04.3d"):
     bw = facts.body("writer::Writer::batch_write")
     ur = facts.body("writer::Writer::submit_batch_via_io_uring")
     # helpers: bodies (other than the two) that contain a zeroing loop on all paths
@@ -678,7 +678,7 @@ def check_rollback_zeroing(ctx, facts):
             if k != "rollback":
                 continue
             if s.bb not in wrote:
-                ctx.ok("C04.3d", F, "rollback before anything was written or submitted: nothing to zero", b.relfile, s.line, trivial=True)
+                ctx.ok(rid, F, "rollback before anything was written or submitted: nothing to zero", b.relfile, s.line, trivial=True)
                 continue
             n += 1
             cands = []
@@ -690,7 +690,7 @@ def check_rollback_zeroing(ctx, facts):
                     cands.append((z, pr))
             hc = [(c, kk) for c, kk in helper_calls if b.dominates(c.bb, s.bb)]
             if not cands and not hc:
-                ctx.violate("C04.3d", F, "rollback-without-zeroing", b.relfile, s.line,
+                ctx.violate(rid, F, "rollback-without-zeroing", b.relfile, s.line,
                             "the offset is restored but the headers written by the failed batch are not zeroed first: they are decoded as entries by the recovery scan")
                 continue
             bad = [(z, pr) for z, pr in cands if pr]
@@ -703,12 +703,12 @@ def check_rollback_zeroing(ctx, facts):
                     c, kk = badh[0]
                     why = sorted({x for z, L, pr, hb in helper_ok[kk][1] for x in pr}) or ["helper-does-not-zero-on-all-paths"]
                     line = helper_ok[kk][1][0][0].line
-                ctx.violate("C04.3d", F, "rollback-zeroing-incomplete:" + ",".join(why), b.relfile, line,
+                ctx.violate(rid, F, "rollback-zeroing-incomplete:" + ",".join(why), b.relfile, line,
                             "the rollback does not zero the header of every planned entry (%s): a header left behind the restored offset is taken for an entry after a restart, "
                             "or when the next batch overwrites only the zeroed one" % ", ".join(why))
             else:
-                ctx.ok("C04.3d", F, "rollback is preceded by the zeroing of every planned header", b.relfile, s.line)
-    ctx.floor("C04.3d", "rollback stores", n, 1)
+                ctx.ok(rid, F, "rollback is preceded by the zeroing of every planned header", b.relfile, s.line)
+    ctx.floor(rid, "rollback stores", n, 1)
 
 
 def _is_restore(b, install_site):
